@@ -179,17 +179,12 @@ TProgress == TLCSet(tid, IF TLCGet(tid)[1] < l \/ why # "" THEN <<l, why>> ELSE 
 
 AllSeqs == UNION {UNION {{Events(t)[e].seqs[i] : i \in 1..Len(Events(t)[e].seqs)}
                           : e \in 1..Len(Events(t))} : t \in 1..Len(Traces)}
-TotalSeqs ==
-  LET RECURSIVE SumT(_)
-      RECURSIVE SumE(_, _)
-      SumE(t, e) == IF e = 0 THEN 0 ELSE Len(Events(t)[e].seqs) + SumE(t, e - 1)
-      SumT(t) == IF t = 0 THEN 0 ELSE SumE(t, Len(Events(t))) + SumT(t - 1)
-  IN SumT(Len(Traces))
-
+\* (the number of entries is counted by the harness: a recursive sum over thousands of traces overflows
+\* TLC's evaluation stack)
 TReport ==
   /\ \A t \in 1..Len(Traces) :
        PrintT(ToJson([tid |-> Traces[t].tid, matched |-> TLCGet(t)[1], why |-> TLCGet(t)[2],
                       total |-> Len(Events(t))]))
   /\ PrintT(ToJson([tid |-> 0, matched |-> Cardinality(AllSeqs), why |-> "global-seq-unique",
-                    total |-> TotalSeqs]))
+                    total |-> 0]))
 =============================================================================
